@@ -269,17 +269,18 @@ class Server(Acceptor):
         while self.axes:
             cs, ca = self.axes.popleft()
             try:
-                cs.getpeername()
+                pa = cs.getpeername()  # ask only once, peer may reset any moment
+                ha = cs.getsockname()
             except OSError as ex:  # peer reset or closed before we got here
                 logger.error("Accepted connection from %s already gone. %s\n", ca, ex)
                 cs.close()
                 continue  # nothing to serve
-            if ca != cs.getpeername() or self.eha[1] != cs.getsockname()[1]: # only port on eha
+            if ca != pa or self.eha[1] != ha[1]: # only port on eha
                 raise ValueError("Accepted socket host addresses malformed for "
                                  "peer. ca {0} != {1} or ha port {2} != {3}\n"
-                                 "".format(ca, cs.getpeername(), self.eha, cs.getsockname()))
+                                 "".format(ca, pa, self.eha, ha))
             remoter = Remoter(tymth=self.tymth,
-                              ha=cs.getsockname(),
+                              ha=ha,
                               ca=ca,
                               cs=cs,
                               bs=self.bs,
@@ -553,17 +554,18 @@ class ServerTls(Server):
         while self.axes:
             cs, ca = self.axes.popleft()
             try:
-                cs.getpeername()
+                pa = cs.getpeername()  # ask only once, peer may reset any moment
+                ha = cs.getsockname()
             except OSError as ex:  # peer reset or closed before we got here
                 logger.error("Accepted connection from %s already gone. %s\n", ca, ex)
                 cs.close()
                 continue  # nothing to serve
-            if ca != cs.getpeername() or self.eha[1] != cs.getsockname()[1]: # only port on eha
+            if ca != pa or self.eha[1] != ha[1]: # only port on eha
                 raise ValueError("Accepted socket host addresses malformed for "
                                  "peer. ca {0} != {1} or ha port {2} != {3}\n"
-                                 "".format(ca, cs.getpeername(), self.eha, cs.getsockname()))
+                                 "".format(ca, pa, self.eha, ha))
             remoter = RemoterTls(tymth=self.tymth,
-                                 ha=cs.getsockname(),
+                                 ha=ha,
                                  ca=ca,
                                  bs=self.bs,
                                  cs=cs,
